@@ -23,6 +23,13 @@ def run(tier, seed):
                      sample=dict(tags=o['tags'], rel=o['rel'][:2], tagmode=r['spec'].get('tagmode')))
         # the property itself on the real answers: both forms agree, all-of-object loads each pulse of the block once
         for q in o['rel']:
+            blk_ = [p['idx'] for p in o['pulses'] if [g['n'] for g in o['geos'] if g['tag'] == q['tag']] and p['obj'] == [g['n'] for g in o['geos'] if g['tag'] == q['tag']][0]]
+            if q['src'] is None and 0 <= q['k'] < len(blk_):
+                chk.violation(dict(stage='c17-oracle', what='valid per-object address rejected'),
+                              'pulse %d of object tag %d (block %r) is refused as a source address' % (q['k'] + 1, q['tag'], blk_), r['spec'])
+            if q['load'] is None and 0 <= q['k'] < len(blk_):
+                chk.violation(dict(stage='c17-oracle', what='valid per-object address rejected'),
+                              'pulse %d of object tag %d (block %r) is refused as a load address' % (q['k'] + 1, q['tag'], blk_), r['spec'])
             if q['src'] is not None:
                 blk = [p['idx'] for p in o['pulses'] if p['obj'] == [g['n'] for g in o['geos'] if g['tag'] == q['tag']][0]]
                 if q['k'] >= len(blk) or blk[q['k']] != q['src'] or q['load'] != [q['src']]:
